@@ -111,3 +111,42 @@ def _(vc):
     a = built.get("a", [])
     vc.ensure("graph_of_all_nodes_the_wires_and_the_image_of_the_declared_output", len(a) == 3 and a[0] is nodes and a[1] is wires and len(list(a[2])) == 1 and list(a[2])[0] is imgs[1])
     vc.ensure("returns_it", kind == "return" and res is not None)
+
+
+# ------------------------------------------------------------------------------------------------ C07: a conjugation is never compiled away unless its value is real
+from contracts.lib import tensor_param, dtype_of
+SP_ = "cirkit/symbolic/parameters.py"
+
+for _mix in ("real_real", "real_complex", "complex_real", "complex_complex"):
+    def _h(vc, _mix=_mix):
+        """compile_parameter, one iteration on a ConjugateParameter node over Kronecker(A, B): whenever a tensor underneath is complex, the
+        compiled graph must contain a node compiled from THIS conjugate node, wired to the image of its input (conj is the identity only on
+        real values, so it may be compiled away only when every tensor underneath is real)"""
+        K = vc.int("K", lo=1)
+        da, db = _mix.split("_")
+        A = tensor_param(vc, (K, K), "tensor", dtype=da.upper())
+        B = tensor_param(vc, (K, K), "tensor", dtype=db.upper())
+        kron = vc.call(f"{SP_}:Parameter.from_binary", vc.new(f"{SP_}:KroneckerParameter", (K, K), (K, K)), A, B)
+        P = vc.call(f"{SP_}:Parameter.from_unary", vc.new(f"{SP_}:ConjugateParameter", (K * K, K * K)), kron)
+        (cur,) = P.fields["_outputs"]
+        (inp,) = P.fields["_in_nodes"][cur]
+        calls = []
+        comp = _compiler(vc, calls, "parameter")
+        cmap, wires, nodes = LoopMap("compiled_map"), LoopMap("wires"), []
+        vc.assume(z3.Select(cmap.base.dom, ref_term(inp)))
+        loc = {"self": comp, "parameter": P, "compiled_nodes_map": cmap, "in_nodes": wires, "nodes": nodes}
+        vc.run_loop_body(f"{TC}:TorchCompiler.compile_parameter", loc, cur)
+        ok = len(cmap.written) == 1 and cmap.written[0][0] is cur
+        vc.ensure("an_image_is_recorded_for_the_conjugate_node", ok)
+        if not ok:
+            return
+        img = cmap.written[0][1]
+        emitted = len(calls) == 1 and calls[0] is cur and isinstance(img, Opaque) and len(nodes) == 1 and nodes[0] is img
+        if "complex" in _mix:
+            vc.ensure("conjugation_of_a_complex_valued_parameter_is_compiled", emitted)
+        if emitted:
+            good = len(wires.written) == 1 and wires.written[0][0] is img and len(wires.written[0][1]) == 1
+            vc.ensure("wired_to_the_image_of_its_input", good and isinstance(wires.written[0][1][0], RefVal) and vc.must(ref_term(wires.written[0][1][0]) == z3.Select(cmap.base.val, ref_term(inp))))
+        else:
+            vc.ensure("compiled_away_only_as_an_alias_of_its_input_image", isinstance(img, RefVal) and vc.must(ref_term(img) == z3.Select(cmap.base.val, ref_term(inp))) and nodes == [] and calls == [])
+    obligation(f"C07.compile.step.conjugate_of_kronecker.{_mix}", "C07", [f"{TC}:TorchCompiler.compile_parameter"])(_h)
